@@ -2,6 +2,7 @@ package main
 
 import (
 	"context"
+	"io"
 	"time"
 
 	theine "github.com/Yiling-J/theine-go"
@@ -192,5 +193,32 @@ func (a *anyCache) rangeAll(f func(k int, v int64) bool) {
 		a.lc.Range(f)
 	default:
 		a.store().Range(f)
+	}
+}
+
+// save / load forward to the kind's SaveCache / LoadCache.
+func (a *anyCache) save(version uint64, w io.Writer) error {
+	switch a.kind {
+	case "plain":
+		return a.c.SaveCache(version, w)
+	case "loading":
+		return a.lc.SaveCache(version, w)
+	case "hybrid":
+		return a.hc.SaveCache(version, w)
+	default:
+		return a.hlc.SaveCache(version, w)
+	}
+}
+
+func (a *anyCache) load(version uint64, rd io.Reader) error {
+	switch a.kind {
+	case "plain":
+		return a.c.LoadCache(version, rd)
+	case "loading":
+		return a.lc.LoadCache(version, rd)
+	case "hybrid":
+		return a.hc.LoadCache(version, rd)
+	default:
+		return a.hlc.LoadCache(version, rd)
 	}
 }
